@@ -133,25 +133,28 @@ Lemma acc_sound : forall toks keys a z,
   Forall int_tok toks -> List.length toks = List.length keys -> in_i64 a = true ->
   fold_left (fun acc tm => accumulate_tok acc (fst tm) (snd tm)) (combine toks keys) (Some a) = Some z ->
   z = a + dot (map tok_count toks) keys
-  /\ forall k, in_i64 (a + dot (firstn k (map tok_count toks)) keys) = true.
+  /\ (forall k, in_i64 (a + dot (firstn k (map tok_count toks)) keys) = true)
+  /\ Forall (fun cm => in_i64 (fst cm) = true /\ in_i64 (fst cm * snd cm) = true) (combine (map tok_count toks) keys).
 Proof.
   induction toks as [|tok toks IH]; intros keys a z F L Ha H.
-  - cbn in H. inversion H; subst. cbn [map dot]. split; [lia|]. intro k. destruct k; cbn [firstn dot]; rewrite Z.add_0_r; exact Ha.
+  - cbn in H. inversion H; subst. cbn [map dot]. split; [lia|]. split; [|constructor]. intro k. destruct k; cbn [firstn dot]; rewrite Z.add_0_r; exact Ha.
   - destruct keys as [|m keys]; [discriminate|]. inversion F as [|? ? Ft F']; subst.
     cbn [combine fold_left fst snd] in H. cbn [List.length] in L.
     destruct Ft as [E|[N D]].
-    + subst tok. cbn [accumulate_tok] in H. destruct (IH keys a z F' ltac:(lia) Ha H) as [Ez P].
-      cbn [map tok_count dot]. split; [lia|]. intro k. destruct k; cbn [firstn dot].
+    + subst tok. cbn [accumulate_tok] in H. destruct (IH keys a z F' ltac:(lia) Ha H) as (Ez & P & Q).
+      cbn [map tok_count dot combine]. split; [lia|]. split; [|constructor; [cbn [fst snd]; split; reflexivity | exact Q]].
+      intro k. destruct k; cbn [firstn dot].
       * rewrite Z.add_0_r. exact Ha.
       * specialize (P k). replace (a + (0 * m + dot (firstn k (map tok_count toks)) keys)) with (a + dot (firstn k (map tok_count toks)) keys) by lia. exact P.
     + unfold accumulate_tok at 2 in H. destruct tok as [|c t]; [congruence|].
       rewrite (parse_int_digits (c :: t) N D) in H.
-      destruct (in_i64 (digits_val (c :: t))); [|rewrite accumulate_none in H; discriminate].
+      destruct (in_i64 (digits_val (c :: t))) eqn:Ec; [|rewrite accumulate_none in H; discriminate].
       destruct (in_i64 (digits_val (c :: t) * m) && in_i64 (a + digits_val (c :: t) * m)) eqn:Eb;
         [|rewrite accumulate_none in H; discriminate].
-      apply andb_prop in Eb. destruct Eb as [_ Hs].
-      destruct (IH keys _ z F' ltac:(lia) Hs H) as [Ez P].
-      cbn [map dot]. change (tok_count (c :: t)) with (digits_val (c :: t)). split; [lia|].
+      apply andb_prop in Eb. destruct Eb as [Hp Hs].
+      destruct (IH keys _ z F' ltac:(lia) Hs H) as (Ez & P & Q).
+      cbn [map dot combine]. change (tok_count (c :: t)) with (digits_val (c :: t)). split; [lia|].
+      split; [|constructor; [cbn [fst snd]; split; assumption | exact Q]].
       intro k. destruct k; cbn [firstn dot].
       * rewrite Z.add_0_r. exact Ha.
       * specialize (P k). rewrite Z.add_assoc. exact P.
@@ -246,6 +249,7 @@ Theorem parse_sound : forall u s n, wf_units u = true -> parse_units_int u s = S
     tokenisation u (chars (trim_space s)) toks
     /\ n = dot (map tok_count toks) (units_keys u)
     /\ (forall k, in_i64 (dot (firstn k (map tok_count toks)) (units_keys u)) = true)
+    /\ Forall (fun cm => in_i64 (fst cm) = true /\ in_i64 (fst cm * snd cm) = true) (combine (map tok_count toks) (units_keys u))
     /\ StronglySorted mult_gt (sorted_mults u).
 Proof.
   intros u s n W H. apply parse_units_int_inv in H. destruct H as (cs & N & Em & Ex & Ef).
@@ -256,8 +260,8 @@ Proof.
   subst cs. rewrite (model_toks_eq u toks W L) in Ex, Ef.
   assert (IT : Forall int_tok toks).
   { eapply int_toks_of; [exact (useq_tokens _ _ _ U) | symmetry; exact L | exact Ex]. }
-  destruct (acc_sound toks (units_keys u) 0 n IT L eq_refl Ef) as [En P].
+  destruct (acc_sound toks (units_keys u) 0 n IT L eq_refl Ef) as (En & P & Q).
   exists toks. split; [exists sp0, body; repeat split; assumption|].
-  split; [lia|]. split; [|apply sorted_mults_desc; exact W].
+  split; [lia|]. split; [|split; [exact Q | apply sorted_mults_desc; exact W]].
   intro k. specialize (P k). rewrite Z.add_0_l in P. exact P.
 Qed.
